@@ -307,7 +307,8 @@ fn judge_commit(w: &World, plan: &Plan, before: &Totals, before_rewards: Decimal
             );
         }
     }
-    if credit_used.is_positive() && paid_sum < usable_sum {
+    let stopped_early = run.failure().map(is_costing_failure).unwrap_or(false);
+    if credit_used.is_positive() && paid_sum < usable_sum && !stopped_early {
         return fail("free credit used although locked fees were left", format!("credit used {}, paid {}, usable locks {}", credit_used, paid_sum, usable_sum));
     }
     if c.fee_source.paying_vaults.iter().map(|(k, v)| (*k, *v)).filter(|(_, v)| !v.is_zero()).collect::<BTreeMap<_, _>>() != paid.iter().map(|(k, v)| (*k, *v)).filter(|(_, v)| !v.is_zero()).collect::<BTreeMap<_, _>>() {
@@ -406,8 +407,9 @@ fn judge_commit(w: &World, plan: &Plan, before: &Totals, before_rewards: Decimal
         }
         burnt = burnt.checked_sub(delta).unwrap();
     }
-    if burnt != fd.to_burn {
-        return fail("XRD held in vaults does not shrink by exactly the burn share", format!("sum of XRD vaults shrank by {} but burn share is {}", burnt, fd.to_burn));
+    // free credit is XRD that never sat in a vault: what it pays for does not leave any vault
+    if burnt.checked_add(credit_used).unwrap() != fd.to_burn {
+        return fail("XRD held in vaults does not shrink by exactly the burn share (less the free credit used)", format!("sum of XRD vaults shrank by {}, free credit used {}, burn share {}", burnt, credit_used, fd.to_burn));
     }
     let (_, rewards_after, leader) = rewards_state(w);
     let credited = rewards_after.checked_sub(before_rewards).unwrap();
@@ -476,7 +478,13 @@ fn gen_plan(g: &mut Gen) -> Plan {
         _ => dec!(100),
     };
     let n_locks = 1 + g.below(3) as usize;
-    let mut locks = vec![Lock { account: g.below(4) as usize, contingent: false, amount: dec!(5000) }];
+    // a vault can be fee-locked once per transaction (lock_fee needs the vault untouched): distinct accounts
+    let mut free_accounts: Vec<usize> = vec![0, 1, 2, 3];
+    let mut take_account = |g: &mut Gen| -> usize {
+        let i = g.index(free_accounts.len());
+        free_accounts.remove(i)
+    };
+    let mut locks = vec![Lock { account: take_account(g), contingent: false, amount: dec!(5000) }];
     for _ in 1..n_locks {
         let contingent = g.bool();
         let amount = if contingent {
@@ -484,7 +492,7 @@ fn gen_plan(g: &mut Gen) -> Plan {
         } else {
             Decimal::from_attos(I192::from(1 + g.below(50_000_000_000_000_000)))
         };
-        locks.push(Lock { account: g.below(4) as usize, contingent, amount });
+        locks.push(Lock { account: take_account(g), contingent, amount });
     }
     let mut body = Vec::new();
     let n_body = g.below(6) as usize;
